@@ -51,7 +51,7 @@ PLACERS = ["sa_c", "sa_python", "hilbert", "rcm", "breadth_first",
 def plan(tier, prop):
     quick = tier == "quick"
     return {
-        "runs": 9000 if quick else 400000,
+        "runs": 7000 if quick else 400000,
         "budget_s": 55 if quick else 800,
         "chunk": 20 if quick else 100,
         "chunk_timeout_s": 900,
